@@ -121,11 +121,43 @@ def run(F, R, tier):
     R.ob("C12-b", "the dependency list that goes into a cache entry records every referenced package of that referrer", not bad,
          "add_pending_nv can return without recording the dependency for this referrer (e.g. when the package was already seen through another referrer): a later cache hit for this referrer would not re-queue it", where(bad[0]) if bad else "")
 
+    # ---------------- C12-g (cache entries are complete) ---------------------
+    ITEM_T = "FastCheckCacheModuleItem"
+    cpush = [n for n in bf["_nodes"] if n.get("k") == "MethodCall" and n["name"] == "push" and tyc(F, n["recv"], ITEM_T) and peel(n["recv"]).get("res") == "local"]
+    R.floor("C12-g cache item pushes", len(cpush), 3)
+    loops = []
+    for n in cpush:
+        lp = [a for a in k_ancestors(n) if a["k"] == "For"]
+        if lp and lp[0] not in loops and is_within(lp[0], bf["body"]["value"]):
+            # innermost loop around the push that is itself inside the package loop
+            loops.append(lp[0])
+    R.floor("C12-g cache fill loops", len(loops), 2)
+    for lp in loops:
+        mine = [n for n in cpush if is_within(n, lp["body"])]
+        bad, _ = must_pass(F, lp["body"], lambda n: n in mine, exit_kinds=("fallthrough", "continue", "break"))
+        R.ob("C12-g", "every module / diagnostic of a transformed package gets a cache item", not bad,
+             "an iteration of the cache fill loop can finish without pushing a cache item: the stored entry would lack that module, and a later cache hit would reproduce a different result than the run that filled the cache", where(lp))
+    for n in cpush:
+        v = peel(n["args"][0])
+        item = peel(v["args"][1]) if v.get("k") == "Tup" and len(v.get("args", [])) == 2 else (peel(v["elems"][1]) if v.get("k") == "Tup" and len(v.get("elems", [])) == 2 else None)
+        if item is None:
+            continue
+        g = guards_at(F, n)
+        no_err = any(x.kind == "cond" and x.pol and x.node.get("name") == "is_empty" and ty_is(F, x.node["recv"], ERR_T) for x in g)
+        if ctor_of(item) == "fast_check::cache::FastCheckCacheModuleItem::Info":
+            R.ob("C12-g", "an emitted module is cached only for a package without errors", no_err, "Info cache item pushed without errors.is_empty()", where(n))
+    sets = [n for n in bf["_nodes"] if n.get("k") == "MethodCall" and n["name"] == "set" and tyc(F, n["recv"], "FastCheckCache")]
+    if R.ob("C12-g", "the cache is filled after a transform", len(sets) == 1, "fast_check_cache.set missing", bf["file"]):
+        g = guards_at(F, sets[0])
+        conds = [x for x in g if x.kind == "cond" and not x.derived]
+        ok = len(conds) == 1 and conds[0].pol and conds[0].node.get("name") == "is_empty" and mentions_field(conds[0].node, "cache_items")
+        R.ob("C12-g", "every freshly transformed package is stored (only cache hits are not re-stored)", ok, "cache fill is additionally guarded by %s" % [x.text()[:50] for x in conds], where(sets[0]))
+
     # ---------------- C12-c ------------------------------------------------
     shapes = []
     for b in (bf, iv):
         for n in b["_nodes"]:
-            if n.get("k") == "LetStmt" and n["pat"].get("name") in ("source_hash", "hash") and "init" in n:
+            if n.get("k") == "LetStmt" and "init" in n and mentions_call(n["init"], ["fast_insecure_hash"]):
                 shapes.append((b["path"].split("::")[-1], n, hash_shape(F, n["init"])))
     R.floor("C12-c source-hash computations", len(shapes), 3)
     if shapes:
